@@ -310,6 +310,19 @@ def channels():
     add('in-items', '[<dtml-in s><dtml-var pub>;</dtml-in>]', kind='item')
     add('in-items-skip', '[<dtml-in s skip_unauthorized><dtml-var pub>;'
         '</dtml-in>]', kind='item', skip=True)
+    # the item variables must describe the item that is being shown
+    add('in-items-skip-item-expr', '[<dtml-in s skip_unauthorized>'
+        '<dtml-var "_[\'sequence-item\'].pub">;</dtml-in>]', kind='item',
+        skip=True)
+    add('in-items-skip-prefix', '[<dtml-in s skip_unauthorized prefix=it>'
+        '<dtml-var "it_item.pub">,<dtml-var pub>;</dtml-in>]', kind='item',
+        skip=True)
+    add('in-items-skip-with-item', '[<dtml-in s skip_unauthorized '
+        'no_push_item><dtml-with sequence-item><dtml-var pub></dtml-with>;'
+        '</dtml-in>]', kind='item', skip=True)
+    add('in-items-list-skip-item-expr', '[<dtml-in lst skip_unauthorized>'
+        '<dtml-var "_[\'sequence-item\'].pub">;</dtml-in>]', kind='item',
+        seqname='builtin', skip=True)
     add('in-items-batch', '[<dtml-in s size=3 orphan=0><dtml-var pub>;'
         '</dtml-in>]', kind='item')
     add('in-items-batch-skip', '[<dtml-in s size=3 orphan=0 '
